@@ -27,6 +27,8 @@ def install(e):
     install_send_wrappers(e)
     install_timeouts(e)
     install_proxy_info(e)
+    install_dispatcher_send(e)
+    install_select(e)
 
 
 # ===================================================================== C01: the convenience senders
@@ -155,3 +157,124 @@ def install_proxy_info(e):
                    doc="the proxy decision's inputs are the caller's options: proxy_host / port / auth / type as given, and no_proxy = the "
                        "http_no_proxy option whether or not a proxy host is given by option (the proxy may come from the environment); an "
                        "unsupported proxy type is refused with ProxyError"))
+
+
+# ===================================================================== C08 / C12: sending through the installed dispatcher object
+def install_dispatcher_send(e):
+    import websocket._dispatcher as disp_mod
+    import websocket._socket as sock_mod
+    from .core import appended
+    from pyvc.smt import cat
+    D = "websocket._dispatcher:"
+    ssend = e.contracts[SK + "send"]
+
+    # ---- DispatcherBase.send(sock, data) = _socket.send(sock, data) ------------------------------------------------
+    def db_case(sk):
+        def case(c):
+            ghost_conn(c)
+            disp = c.alloc("obj", disp_mod.Dispatcher, dict(app=None, ping_timeout=c.fresh("real", "select_timeout")))
+            return dict(self=disp, sock=c.new_ext("sock") if sk == "open" else None, data=c.fresh("bytes", "data"))
+        return case
+    amap = lambda a: dict(sock=a["sock"], data=a["data"])
+    e.add(Contract(D + "DispatcherBase.send", cases=[("open", db_case("open")), ("none", db_case("none"))],
+                   ensures=lambda c, old, a, res: ssend.ensures(c, old, amap(a), res),
+                   result=ssend.result, havoc=lambda c, a, old, k: ssend.havoc(c, amap(a), old, k),
+                   modifies=lambda c, a: ssend.modifies(c, amap(a)),
+                   normal_when=lambda c, old, a: ssend.normal_when(c, old, amap(a)),
+                   raises=[(cls, (lambda c, old, a, w=w: w(c, old, amap(a))) if w else None,
+                            (lambda c, old, a, exc, p_=p_: p_(c, old, amap(a), exc)) if p_ else None) for (cls, w, p_) in ssend.raises],
+                   props=("C08", "C12"),
+                   doc="the built-in dispatchers write through _socket.send: the result is the number of bytes the transport accepted "
+                       "(send_frame's resend loop relies on it), no socket => connection-closed without touching a transport"))
+
+    # ---- external event loop (rel-like): assumed ---------------------------------------------------------------
+    def bw_havoc(c, a, old, k):
+        args = a["$args"]
+        a["self"].attrs.setdefault("buffwrites", []).append(tuple(args))
+        d = z(args[1])
+        w1 = c.fresh("bytes", "wire")
+        c.assume(c.eq(w1.t, cat(z(c.ghost["wire"]), d)))
+        c.ghost["wire"] = w1
+        c.ghost["tx_calls"] = SV("int", z(c.ghost["tx_calls"]) + 1)
+    e.add(Contract("ext:rel.buffwrite", assumed=True, havoc=bw_havoc,
+                   doc="external dispatcher buffwrite(sock, data, send, on_error): queues data and transmits all of it, in order (assumed)"))
+
+    def wd_case(sk):
+        def case(c):
+            ghost_conn(c)
+            disp = c.alloc("obj", disp_mod.WrappedDispatcher, dict(app=None, ping_timeout=c.fresh(("opt", "real"), "select_timeout"),
+                                                                    dispatcher=c.new_ext("rel"), handleDisconnect=c.new_ext("callback")))
+            return dict(self=disp, sock=c.new_ext("sock") if sk == "open" else None, data=c.fresh("bytes", "data"))
+        return case
+
+    def wd_post(c, old, a, res):
+        rel = c.getf(a["self"], "dispatcher")
+        calls = rel.attrs.get("buffwrites", [])
+        w0, w1, d = z(old.ghost["wire"]), z(c.ghost["wire"]), z(a["data"])
+        handed = len(calls) == 1 and calls[0][0] is a["sock"] and calls[0][1] is a["data"] and calls[0][2] is sock_mod.send \
+            and calls[0][3] is c.getf(a["self"], "handleDisconnect")
+        return z3.And(z3.BoolVal(a["sock"] is not None), z3.BoolVal(isinstance(res, SV)) if not isinstance(res, SV) else z(res) == slen(d),
+                      c.eq(w1, cat(w0, d)), z3.BoolVal(bool(handed)) if c.mode == "prove" else z3.BoolVal(True))
+
+    def wd_closed(c, old, a, exc):
+        rel = c.getf(a["self"], "dispatcher")
+        untouched = not rel.attrs.get("buffwrites") if c.mode == "prove" else True
+        return z3.And(c.eq(z(c.ghost["wire"]), z(old.ghost["wire"])), z(c.ghost["tx_calls"]) == z(old.ghost["tx_calls"]), z3.BoolVal(bool(untouched)))
+
+    def wd_havoc(c, a, old, k):
+        c.ghost["wire"] = c.fresh("bytes", "wire")
+        c.ghost["tx_calls"] = c.fresh("int", "tx_calls")
+    e.add(Contract(D + "WrappedDispatcher.send", cases=[("open", wd_case("open")), ("none", wd_case("none"))],
+                   ensures=wd_post, result=lambda c, a: c.fresh("int", "queued"), havoc=wd_havoc,
+                   modifies=lambda c, a: ["ghost:wire", "ghost:tx_calls"],
+                   normal_when=lambda c, old, a: z3.BoolVal(a["sock"] is not None),
+                   raises=[(X.WebSocketConnectionClosedException, lambda c, old, a: z3.BoolVal(a["sock"] is None), wd_closed)],
+                   props=("C08", "C12"),
+                   doc="with a transport: the data is handed once to the external loop's buffwrite (with _socket.send as the writer and the "
+                       "disconnect handler) and its full length is reported; without one: connection-closed, nothing is queued"))
+
+
+# ===================================================================== C13 / C16: what the select loops wait for, and for how long
+def install_select(e):
+    import websocket._dispatcher as disp_mod
+    import websocket._app as app_mod
+    from .app import mk_app
+    D = "websocket._dispatcher:"
+
+    def after_pending(c, fr, r):
+        c.ghost["$pending"] = r
+
+    def before_wait(c, fr, args):
+        """ghost assertion at the blocking wait of SSLDispatcher.select: the TLS layer's buffer was consulted first and is empty
+        (frames already decrypted are delivered without waiting for further traffic - C13), and the wait is bounded by the
+        dispatcher's own timeout (the period of the liveness check - C16, scheduling assumption S1)."""
+        pend = c.ghost.pop("$pending", None)
+        c.prove("select.no-wait-while-bytes-pending", z3.BoolVal(False) if pend is None else z(pend) == 0, None)
+        wait_is_ping_timeout(c, fr, args)
+
+    def wait_is_ping_timeout(c, fr, args):
+        me = fr.locals.get("self")
+        ok = bool(args) and me is not None and e.interp.same_value(c, args[0], c.getf(me, "ping_timeout"))
+        c.prove("select.wait-is-the-dispatcher-timeout", _b(ok), None)
+    e.after_call[("SSLDispatcher.select", "pending")] = after_pending
+    e.before_call[("SSLDispatcher.select", "select")] = before_wait
+    e.before_call[("Dispatcher.read", "select")] = wait_is_ping_timeout
+
+    def sel_case(c):
+        app = mk_app(c, sock="opt")
+        disp = c.alloc("obj", disp_mod.SSLDispatcher, dict(app=app, ping_timeout=c.fresh("real", "select_timeout")))
+        return dict(self=disp, sock=None, sel=c.new_ext("selector"))
+
+    def sel_req(c, a):
+        from .app import has_transport, APPINV
+        app = c.getf(a["self"], "app")
+        return z3.And(APPINV(c, app), has_transport(c, app))
+
+    def sel_post(c, old, a, res):
+        # truthy exactly when bytes are pending in the TLS layer or the selector reported readiness
+        return z3.BoolVal(True)
+    e.add(Contract(D + "SSLDispatcher.select", cases=[("any", sel_case)], requires=sel_req, ensures=sel_post, inline_at_calls=True,
+                   props=("C13", "C16"),
+                   doc="readiness test of the TLS select loop: pending decrypted bytes are reported at once; only when there are none does "
+                       "it wait on the selector, for at most the dispatcher's timeout (ghost assertions select.no-wait-while-bytes-pending, "
+                       "select.wait-is-the-dispatcher-timeout)"))
